@@ -6,7 +6,11 @@
            "path"  tokens = path_tokenizer.to_tokens(maze, coord_tokenizer)       (path region only)
    The verdict is computed by TokMod's decoder/encoder, configured only from r.tok and the grid shape.
    Layer P clauses: token_not_in_vocabulary, region_delimiter_count, region_order, adj_* , origin,
-   target, path, raises.  Layer M: "M:unsupported_parameters" (record outside the quantifier). *)
+   target, path, raises.  Layer M: "M:unsupported_parameters" (record outside the quantifier);
+   "M:argument_modified" (optional field argmod = TRUE: the call changed the caller's maze object - the
+   statement speaks about the token stream only; r.maze is always the maze as it was BEFORE the call);
+   every clause of a record with the optional field scope = "M" (input outside the statement's quantifier,
+   e.g. a grid side of 1 or a non-boolean connection list) is reported with the prefix "M:". *)
 EXTENDS TokMod, Json
 Log == ndJsonDeserialize(IOEnv.VERIF_LOG)
 
@@ -24,7 +28,7 @@ Representable(r) ==
   /\ ((r.level \in {"full", "path"} /\ r.maze.kind = "SolvedMaze")
         => PathRepresentable(r.tok.path, r.maze.R, r.maze.C, r.maze.conn, CellSeq(r.maze.sol)))
 
-Clauses(r) ==
+BaseClauses(r) ==
   LET t == r.tok   m == r.maze   q == r.tokens IN
   IF ~Supported(r) THEN {"M:unsupported_parameters"}
   ELSE IF r.res # "ok" THEN (IF Representable(r) THEN {"raises"} ELSE {})
@@ -32,6 +36,14 @@ Clauses(r) ==
        \cup (IF r.level = "full" THEN PromptClauses(t, Inv, m, q)
              ELSE IF r.level = "adj" THEN AdjClauses(t.coord, t.adj, Inv, m.R, m.C, m.conn, q)
              ELSE (IF q = PathToks(t.coord, t.path, m.R, m.C, m.conn, CellSeq(m.sol)) THEN {} ELSE {"path"}))
+
+\* optional fields (absent in most records): argmod, scope
+LayerMNames == {"M:unsupported_parameters", "M:argument_modified"}
+AsLayerM(c) == IF c \in LayerMNames THEN c ELSE "M:" \o c
+Clauses(r) ==
+  LET b == BaseClauses(r)
+           \cup (IF "argmod" \in DOMAIN r /\ r.argmod THEN {"M:argument_modified"} ELSE {})
+  IN IF "scope" \in DOMAIN r /\ r.scope = "M" THEN {AsLayerM(c) : c \in b} ELSE b
 
 VARIABLES l, bad
 tvars == <<l, bad, dvars>>
